@@ -70,9 +70,12 @@ def tok (s : St) (w : String) : Option Nat :=
   | none => none
 
 /-- number of malloc calls `mpt_node_clone` makes for one node: the value's metatype (if any), the node, and the
-    name when it does not fit into the node (identifier length incl. terminator > 216) -/
+    name when it does not fit into the node `mpt_node_new(len)` makes for it (len = name + terminator; node size 64,
+    doubled up to 256 while smaller than len + 40; 44 bytes of the node are not name space) -/
 def mallocsNode (n : Name) (v : Val) : Nat :=
-  (if v.isSome then 1 else 0) + 1 + (match n with | some nm => if nm.utf8ByteSize + 1 > 216 then 1 else 0 | none => 0)
+  let len := match n with | some nm => nm.utf8ByteSize + 1 | none => 0
+  let size := if len + 40 ≤ 64 ∨ len + 40 > 256 then 64 else if len + 40 ≤ 128 then 128 else 256
+  (if v.isSome then 1 else 0) + 1 + (if len > size - 44 then 1 else 0)
 
 def mallocsForest : Nat → Forest → Nat
   | 0, _ => 0
@@ -113,6 +116,28 @@ def cleanupHeads (m : Store) : List Nat → Res Store
 
 def step (s : St) (w : List String) : St × String :=
   match w with
+  | ["n", "nparse", x, lim, inp] =>
+    if inp ≠ "empty" ∧ inp ≠ "broken" then (s, "bad-op") else
+    match tok s x with
+    | some x =>
+      -- accepted: known limit characters and an input without syntax error (here: empty) — the children are
+      -- replaced by what was read, i.e. released; refused: nothing changes
+      let accept := inp = "empty" ∧ lim.toList.all (fun c => "fcnswebFCNSWEB".toList.contains c)
+      if accept then
+        match s.sp.clear x with
+        | none => precond s
+        | some sp' => finish s (s.m.clear s.m.fuel x) sp' "0"
+      else (s, line "refused" s.m (if inp = "broken" then "-2" else "-1") "refused" s.sp)
+    | none => (s, "bad-op")
+  | ["n", "newsmall", nm, v] =>
+    -- same node as `new`; only the storage of the name differs in the code
+    if okWord nm ∧ okWord v then
+      let name := parseName nm
+      let val : Val := if v = "-" then none else some v
+      let a := s.m.alloc name val
+      let sp' := s.sp.new name val
+      ({ m := a.1, sp := sp' }, line "ok" a.1 (toString a.2) "ok" sp')
+    else (s, "bad-op")
   | ["n", "new", nm, v] =>
     if okWord nm ∧ okWord v then
       let name := parseName nm
